@@ -179,6 +179,13 @@ pub fn prop_c06_raw(raw: &[Vec<u8>]) -> String {
     let text = raw.join(&b'\n');
     let Ok(full) = rosu_map::from_bytes::<Probe>(&text) else { return "FAIL decode error".to_owned() };
     let full_dump = dump_beatmap(&full.map);
+    // "the final decoded result" includes what a slider computes from its stored path (the game mode a path was built with is
+    // not part of `==` nor of the dump, but decides how a Catmull path is approximated): the computed curves are compared too,
+    // as long as that stays cheap (seed C06-l: the mode frozen when the first - rejected - hit-object line is seen)
+    let n_sliders = full.map.hit_objects.iter().filter(|h| matches!(h.kind, rosu_map::section::hit_objects::HitObjectKind::Slider(_))).count();
+    let n_rejected = full.log.iter().filter(|(_, r)| *r).count();
+    let with_curves = n_sliders * (n_rejected + 1) <= 4000;
+    let full_curves = if with_curves { curves_digest(&full.map) } else { String::new() };
     // map parser calls back to line indices with the independent framing transcription
     let Some(calls) = crate::frame::spec_frame_idx(lines) else { return "SKIP framing".to_owned() };
     // the k-th parser call belongs to the k-th line the framing hands on; when the counts agree the rejected calls can be
@@ -202,11 +209,32 @@ pub fn prop_c06_raw(raw: &[Vec<u8>]) -> String {
                 if d != full_dump {
                     return format!("FAIL rejected line {idx} ({:?}) changes the result", lines[*idx]);
                 }
+                if with_curves && curves_digest(&m) != full_curves {
+                    return format!("FAIL rejected line {idx} ({:?}) changes the computed curve of a slider", lines[*idx]);
+                }
             }
             Err(_) => return "FAIL decode error".to_owned(),
         }
     }
     format!("OK rejected={rejected}")
+}
+
+/// per slider: number of path points, distance and every path point of the computed curve, as bit patterns
+fn curves_digest(m: &Beatmap) -> String {
+    let mut m = m.clone();
+    let mut out = String::new();
+    let mut bufs = rosu_map::section::hit_objects::CurveBuffers::default();
+    for h in m.hit_objects.iter_mut() {
+        if let rosu_map::section::hit_objects::HitObjectKind::Slider(ref mut s) = h.kind {
+            let c = s.path.curve_with_bufs(&mut bufs);
+            out.push_str(&format!("{}:{:x}:", c.path().len(), c.dist().to_bits()));
+            for p in c.path() {
+                out.push_str(&format!("{:x},{:x};", p.x.to_bits(), p.y.to_bits()));
+            }
+            out.push('|');
+        }
+    }
+    out
 }
 
 pub fn enc(bytes: &[u8]) -> String {
